@@ -20,6 +20,11 @@ def run(v):
     # the same property on choices, optional/repeated groups and adjacent groups (GroupLine engine)
     gfam = (D.group_family(SEED, 4, 3000) + D.alt_family(SEED + 53, 15, maxlen=4, budget=3000) + D.adj_family(SEED + 54, 9, maxlen=5, budget=3000) + D.acmd_family(SEED + 55, 6, maxlen=4, budget=3000) + D.acmd_hole_defs(SEED)) if v.tier == "quick" \
         else (D.group_family(SEED, 5, 40000) + D.alt_family(SEED + 53, 80, maxlen=5, budget=40000) + D.adj_family(SEED + 54, 45, maxlen=6, budget=40000) + D.acmd_family(SEED + 55, 30, maxlen=6, budget=40000) + D.acmd_hole_defs(SEED))
+    q = v.tier == "quick"
+    # groups with a default for the whole group, choices with a positional branch, ties between defaulted branches
+    gfam += D.group_fb_family(SEED + 56, 12 if q else 36, maxlen=3 if q else 4, budget=2500 if q else 25000) + \
+        D.alt_pos_family(SEED + 57, 8 if q else 40, maxlen=3, budget=2500 if q else 20000) + \
+        D.alt_tie_family(SEED + 58, 8 if q else 32, maxlen=3, budget=2500 if q else 20000)
     gbig = D.alt_family(SEED + 1053, 25, budget=10**9) + D.adj_family(SEED + 1054, 18, budget=10**9)
     gcov = run_cmdline_property(v, gfam, None, replay_cfg="MC_GroupLine_replay.cfg", module="MC_GroupLine",
                                 signature=cmdline_sig.signature, ledger_every=(6 if v.tier == "quick" else 1), trace_module="GroupLineTrace", name="C05g",
